@@ -29,6 +29,8 @@ def shroud_base(d):
             # the typemap table pairs C99 'T complex' (c_type) with std::complex<T> (cxx_type): same meaning
             words = words[len("std::complex<"):-1] + " complex"
         name = refdecl.canon_specifier(words.split())
+    elif tm.base == "template":
+        name = "tparam:" + tm.name          # recorded as a parameter of the enclosing template
     else:
         name = tm.name
     targs = tuple(shroud_base(t) for t in d.template_arguments)
@@ -458,6 +460,8 @@ SEEDS = [
     ("lib", "int grid [ 20 - 8 - 4 ] [ 100 / 10 / 5 ]"),
     ("lib", "enum Level { LOW = 9 - 4 - 1 , MID = LOW * 4 / 2 * 3 , TOP = 2 - LOW + MID }"),
     ("lib", "int & * var1"),
+    ("lib", "template < typename Class1 > Class1 twice ( Class1 value )"),
+    ("lib", "template < typename size_t > void grow ( size_t * n )"),
     ("class", "Class1 ( int flag ) +name ( new )"),
     ("class", "~ Class1 ( void )"),
     ("class", "const Class1 & self ( ) const"),
